@@ -50,6 +50,7 @@ static int kill_cls = -1; static long kill_at;
 static int monitor_outmain = 1;
 static char jail_root[PATH_MAX]; static int jail_on;
 static long corrupt_delivered;
+static long long xfer_bytes[CL_MAX];
 
 static int call_id(const char *s)
 {
@@ -185,6 +186,7 @@ void sim_io_reset(void)
 	journal_ops = 0;
 	jail_on = 0;
 	corrupt_delivered = 0;
+	memset(xfer_bytes, 0, sizeof(xfer_bytes));
 	memset(fdclass, CL_OTHER, sizeof(fdclass));
 	fdclass[0] = CL_STDIN; fdclass[1] = CL_STDOUT; fdclass[2] = CL_STDERR;
 }
@@ -332,6 +334,7 @@ static ssize_t xfer_fault(int call, int fd, size_t *count, int is_read)
 		if (!is_read)
 			goto proceed;
 		count_fired(call, FK_EOF);
+		sim_trace("E eof %s %s after %lld bytes", call_names[call], class_names[cls], xfer_bytes[cls]);
 		return 0;
 	case FK_SHORT:
 	case FK_SHORT1: {
@@ -493,6 +496,8 @@ ssize_t __wrap_read(int fd, void *buf, size_t count)
 			count = truncsize[cls] - pos;
 	}
 	r = __real_read(fd, buf, count);
+	if (r > 0)
+		xfer_bytes[cls] += r;
 	if (r > 0 && ncorrupts && pos >= 0)
 		apply_corruption(cls, pos, buf, r);
 	return r;
